@@ -484,6 +484,17 @@ class World20:
                          else 'subjects were never published')
             return
         opts = self.cfg.get('options', {})
+        if where == 'after creation':
+            try:
+                o = self.current_wire_state('options')
+                want = {k: v for k, v in opts.items() if k != 'camera'}
+                got = {k: v for k, v in o.items() if k != 'camera'}
+                if got != json.loads(json.dumps(want)) or (('camera' in o) != ('camera' in opts)):
+                    self.violate('W1-options', where=where, expected=str(want)[:300], got=str(got)[:300])
+                    return
+            except Exception as e:
+                self.violate('W1-options', where=where, got=f'{type(e).__name__}: {e}', expected='options on the wire')
+                return
         if 'camera' in opts and where == 'after creation':       # options are sent once, at creation
             try:
                 o = self.current_wire_state('options')
